@@ -30,7 +30,7 @@ CONSTANTS Family <- {fam}
 CHECK_DEADLOCK FALSE
 """
 NEG = {-1: 'M1', -2: 'M2', -4: 'M4', -8: 'M8', -10: 'M10', -12: 'M12', -14: 'M14', -16: 'M16', -20: 'M20'}
-RESHAPES = ['flat', '2d', '3d', 'flat', '2d']
+RESHAPES = ['flat', '2d', '3d', 'transposed', 'reversed', '2d', 'flat']
 
 
 def cfg(fam, ops, wlo, whi, invs, subn='N1', piv='PivQuick', dirs='DirsQuick'):
@@ -47,12 +47,23 @@ def pick_frame(rnd, U, want_int=False):
         t = rnd.choice([0, 0, 1, -7, 1000, -10000, 4096])
     else:
         t = rnd.choice([0, 0, 1, -7]) * 1.0
-    return geom.Frame(U, scale, float(t), float(-t if rnd.random() < 0.5 else t // 3), rnd.randint(0, 5))
+    return geom.Frame(U, scale, float(t), float(-t if rnd.random() < 0.5 else t // 3), rnd.randint(0, 5), ints=want_int)
 
 
 def query(region, xs, ys, how):
     from regions import PixCoord
     n = len(xs)
+    if how == 'transposed' and n % 5 == 0:
+        # a non-contiguous 2-D query (transposed view); answers are brought back to the model's order
+        pc = PixCoord(xs.reshape(n // 5, 5).T, ys.reshape(n // 5, 5).T)
+        out = region.contains(pc)
+        if isinstance(out, np.ndarray) and out.shape == (5, n // 5):
+            return np.ascontiguousarray(out.T), (n // 5, 5)
+        return out, (5, n // 5)
+    if how == 'reversed':
+        pc = PixCoord(xs[::-1], ys[::-1])          # negative strides
+        out = region.contains(pc)
+        return (out[::-1].copy() if isinstance(out, np.ndarray) and out.shape == (n,) else out), (n,)
     if how == '2d' and n % 5 == 0:
         shp = (5, n // 5)
     elif how == '3d' and n % 25 == 0:
@@ -87,7 +98,12 @@ def replay_state(ctx, rnd, s, win, wlo, whi, idx, pid='C01'):
     want_int = (idx % 7 == 3)
     fr = pick_frame(rnd, U, want_int)
     try:
-        region = geom.build(s, fr)
+        if idx % 5 == 2:
+            # the region is first built with other parameters, queried once, then assigned the wanted ones
+            from regions import PixCoord as _PC
+            region = geom.build_via_assign(s, fr, lambda r: r.contains(_PC(np.array([0.5, 2.0]), np.array([1.0, -3.0]))))
+        else:
+            region = geom.build(s, fr)
     except Exception as ex:  # the model only proposes valid shapes
         ctx.violation(f"{pid}|build|{s['k']}|{type(ex).__name__}", f'constructing a valid {s["k"]} raised {ex!r}', {'shape': s})
         return
@@ -96,7 +112,10 @@ def replay_state(ctx, rnd, s, win, wlo, whi, idx, pid='C01'):
     if want_int:
         xi, yi = xs.astype(np.int64), ys.astype(np.int64)
         if np.array_equal(xi, xs) and np.array_equal(yi, ys):
-            xs, ys = xi, yi
+            # the smallest integer type that holds the coordinates (products of such values must not wrap around)
+            big = max(int(np.abs(xi).max()), int(np.abs(yi).max()))
+            it = np.int16 if big < 2 ** 15 else (np.int32 if big < 2 ** 31 else np.int64)
+            xs, ys = xi.astype(it), yi.astype(it)
     how = RESHAPES[idx % len(RESHAPES)]
     model = np.asarray(win)
     try:
